@@ -7,6 +7,7 @@ import (
 	"os"
 	"path/filepath"
 	"strings"
+	"time"
 
 	"github.com/goatcms/goatcore/filesystem"
 	"github.com/goatcms/goatcore/filesystem/filespace/diskfs"
@@ -376,7 +377,20 @@ func run(c Case) hx.Verdict {
 				continue
 			}
 		}
-		o := b.Run(op)
+		// a call that does not return (not a C03 matter) must not wedge the whole enumeration:
+		// after 20 s the case is inconclusive and the fixture is abandoned
+		och := make(chan fsmodel.Obs, 1)
+		go func(b *fsmodel.Backend, op fsmodel.Op) { och <- b.Run(op) }(b, op)
+		var o fsmodel.Obs
+		select {
+		case o = <-och:
+		case <-time.After(20 * time.Second):
+			delete(fixtures, c.Kind)
+			v.Inconclusive = true
+			v.Label("call-did-not-return")
+			hx.Note("a call did not return within 20 s: [%s] %s", c.Kind, op)
+			return v
+		}
 		b.DropKept()
 		if d := judge(op, o, strict); d != "" {
 			return fail(i, "leak", d)
